@@ -39,6 +39,7 @@ type c17Sc struct {
 	Pool    int      `json:"pool"`
 	Unknown []string `json:"unknown_variants"` // main-template sources with one name replaced by an unknown one
 	Debug   bool     `json:"debug"`
+	Via     string   `json:"via,omitempty"` // "" = Engine.Render, "renderto" = Engine.RenderTo, "load" = Load + Template.Render
 }
 
 type propC17 struct{}
@@ -75,11 +76,11 @@ var reInclude = regexp.MustCompile(`\{% (include|extends|import|from) '([a-z0-9/
 
 func (propC17) Gen(seed uint64, ex map[string]bool) interface{} {
 	r := newR(seed)
-	f := Feat{Spies: true, SpyPct: 35, MapLoops: false, Include: r.P(70), Inherit: r.P(50), Macros: r.P(60), Dashes: false}
+	f := Feat{Spies: true, SpyPct: 35, MapLoops: false, Include: r.P(70), Inherit: r.P(50), Macros: r.P(60), Dashes: false, Sandbox: true}
 	if ex["macro-text-interpolation"] {
 		f.Macros = false
 	}
-	sc := &c17Sc{Prog: genProgram(r, f), Pool: pick(r, []int{simrt.PoolLIFO, simrt.PoolFresh, simrt.PoolRandom}), Debug: r.P(10)}
+	sc := &c17Sc{Prog: genProgram(r, f), Pool: pick(r, []int{simrt.PoolLIFO, simrt.PoolFresh, simrt.PoolRandom}), Debug: r.P(15), Via: pick(r, []string{"", "", "", "renderto", "load"})}
 	if ex["spaceless-tag"] {
 		for ti := range sc.Prog.Templates {
 			for si, s := range sc.Prog.Templates[ti].Segs {
@@ -107,6 +108,26 @@ func (propC17) Gen(seed uint64, ex map[string]bool) interface{} {
 	variant(reTestName, func(m []string) string { return "is nosuch_" + m[1] })
 	variant(reInclude, func(m []string) string { return "{% " + m[1] + " 'nosuch/" + m[2] + "'" })
 	return sc
+}
+
+// c17Render performs the top-level call in the scenario's flavour. For RenderTo the bytes written before
+// the failure are not part of the observation (the property speaks about Render's return value).
+func c17Render(sc *c17Sc, e *twig.Engine, ctx map[string]interface{}) (string, error) {
+	switch sc.Via {
+	case "renderto":
+		var sb strings.Builder
+		if err := e.RenderTo(&sb, sc.Prog.Main, ctx); err != nil {
+			return "", err
+		}
+		return sb.String(), nil
+	case "load":
+		t, err := e.Load(sc.Prog.Main)
+		if err != nil {
+			return "", err
+		}
+		return t.Render(ctx)
+	}
+	return e.Render(sc.Prog.Main, ctx)
 }
 
 func c17Engine(sc *c17Sc, sp *Spies, mainSrc string) *twig.Engine {
@@ -175,7 +196,7 @@ func (propC17) Run(scI interface{}) *Outcome {
 	// step 1: fault-free
 	sp0 := newSpies()
 	e0 := c17Engine(sc, sp0, "")
-	base := observe(sp0, func() (string, error) { return e0.Render(sc.Prog.Main, ctx()) })
+	base := observe(sp0, func() (string, error) { return c17Render(sc, e0, ctx()) })
 	o.Probes["programs"]++
 	o.Probes["class_"+base.Class]++
 	if base.Class != "ok" {
@@ -194,7 +215,7 @@ func (propC17) Run(scI interface{}) *Outcome {
 		sp := newSpies()
 		sp.FailAt = k
 		e := c17Engine(sc, sp, "")
-		got := observe(sp, func() (string, error) { return e.Render(sc.Prog.Main, ctx()) })
+		got := observe(sp, func() (string, error) { return c17Render(sc, e, ctx()) })
 		kind := strings.SplitN(kinds[k-1], ":", 2)[0]
 		pos := kinds[k-1]
 		if i := strings.Index(pos, "#"); i > 0 {
@@ -228,7 +249,7 @@ func (propC17) Run(scI interface{}) *Outcome {
 		// the engine must stay usable: same engine, no fault
 		sp.FailAt = 0
 		sp.Calls = map[string]int{}
-		again := observe(sp, func() (string, error) { return e.Render(sc.Prog.Main, ctx()) })
+		again := observe(sp, func() (string, error) { return c17Render(sc, e, ctx()) })
 		if again.Class != base.Class || again.Out != base.Out {
 			return failC17(o, "engine-usable-after-failure", "render after a failed render differs: "+pos,
 				fmt.Sprintf("main template %q\n after failing invocation #%d = %s\n fault-free: %s\n now:        %s", sc.Prog.Sources()[sc.Prog.Main], k, kinds[k-1], base, again))
@@ -238,7 +259,7 @@ func (propC17) Run(scI interface{}) *Outcome {
 	for _, v := range sc.Unknown {
 		sp := newSpies()
 		e := c17Engine(sc, sp, v)
-		got := observe(sp, func() (string, error) { return e.Render(sc.Prog.Main, ctx()) })
+		got := observe(sp, func() (string, error) { return c17Render(sc, e, ctx()) })
 		o.Probes["unknown_name_variants"]++
 		what := "filter"
 		switch {
@@ -338,6 +359,11 @@ func (propC17) Shrink(scI interface{}) []interface{} {
 	if sc.Debug {
 		c := clone()
 		c.Debug = false
+		out = append(out, c)
+	}
+	if sc.Via != "" {
+		c := clone()
+		c.Via = ""
 		out = append(out, c)
 	}
 	return out
